@@ -30,7 +30,7 @@ pub fn main(mode: &str, args: &[String]) {
                 // bounded exhaustive exploration: every action sequence up to depth d from the fixed small scenarios
                 let depth: usize = d.parse().unwrap();
                 let only: Option<u32> = a.value("--scenario").map(|s| s.parse().unwrap());
-                for sc in (0..6u32).filter(|sc| only.is_none_or(|o| o == *sc)) {
+                for sc in (0..10u32).filter(|sc| only.map_or(*sc < 6, |o| o == *sc)) {
                     crate::sim::exhaust(sc, depth, a.shard, a.nshards, |sim, leaf| {
                         tr.case(a.shard * 100_000_000 + sc as u64 * 10_000_000 + leaf, 0, &format!("core exhaust={depth} scenario={sc} {}", sim.header()));
                         for l in &sim.core.lines {
